@@ -15,7 +15,7 @@ import (
 func init() {
 	register(&Prop{
 		ID:   "C11",
-		Rule: "contents over {a,b,LF,CR,2-/3-/4-byte characters} with random operation histories (read, unread, unread-many, peek, reset), plus exhaustive contents<=4 over {x,LF,CR} x op sequences<=5 (thorough); non-trivial = contains a line break and at least one unread after a read; distinct by input hash",
+		Rule: "contents over {a,b,LF,CR,2-/3-/4-byte characters} with random operation histories (read, unread, unread-many, peek, reset), long contents (2B+12 characters for B = 64, 256, 1024, thorough also 4096) with every line-break style placed across the multiples of B and the cursor moved back and forth over them, plus exhaustive contents<=4 over {x,LF,CR} x op sequences<=5 (thorough); non-trivial = contains a line break and at least one unread after a read; distinct by input hash",
 		Gen:  genC11,
 		Run:  runC11,
 		Human: func(in sx.SX) string {
@@ -32,6 +32,8 @@ func init() {
 					ops = append(ops, fmt.Sprintf("UnreadMany(%d)", sx.AsInt(oo[1])))
 				case 3:
 					ops = append(ops, "Peek")
+				case 5:
+					ops = append(ops, fmt.Sprintf("Read x%d", sx.AsInt(oo[1])))
 				default:
 					ops = append(ops, "Reset")
 				}
@@ -140,6 +142,46 @@ func genC11(ctx *Ctx) {
 		ctx.Count(fmt.Sprintf("content-len:%d", ln))
 		ctx.Input(sx.L(sx.R(rs), sx.List(ops)), c11Nontrivial(rs, ops))
 	}
+	// long contents: line breaks of every style placed across the multiples of a block size B (whatever a scanner remembers
+	// per block of input meets a break that straddles the block boundary), the cursor is moved back and forth over them
+	blocks := []int{64, 256, 1024}
+	if ctx.Thorough {
+		blocks = append(blocks, 4096)
+	}
+	for _, B := range blocks {
+		for _, brk := range []string{"\n", "\r", "\r\n", "\n\r"} {
+			for align := 0; align < 2; align++ {
+				rs := make([]rune, 2*B+12)
+				for j := range rs {
+					rs[j] = 'a'
+					if ctx.Rnd.Intn(97) == 0 {
+						rs[j] = []rune{'\n', '\r', '日'}[ctx.Rnd.Intn(3)]
+					}
+				}
+				for m := 1; m <= 2; m++ {
+					at := m*B - align
+					if len(brk) == 2 {
+						at = m*B - 1 + align // the two-character break straddles the boundary (or starts right at it)
+					}
+					copy(rs[at:], []rune(brk))
+				}
+				var ops []sx.SX
+				ops = append(ops, c11op(5, B+3))
+				for x := 0; x < 4; x++ {
+					k := 1 + ctx.Rnd.Intn(6)
+					ops = append(ops, c11op(2, k), c11op(3, 0), c11op(5, k))
+				}
+				ops = append(ops, c11op(1, 0), c11op(1, 0), c11op(1, 0), c11op(5, 3), c11op(5, B-3))
+				for x := 0; x < 4; x++ {
+					k := 1 + ctx.Rnd.Intn(6)
+					ops = append(ops, c11op(2, k), c11op(5, k))
+				}
+				ops = append(ops, c11op(4, 0), c11op(5, B+2), c11op(1, 0), c11op(1, 0), c11op(1, 0), c11op(5, 3), c11op(5, B+20), c11op(2, 3), c11op(0, 0))
+				ctx.Count(fmt.Sprintf("long-content:block-%d", B))
+				ctx.Input(sx.L(sx.R(rs), sx.List(ops)), true)
+			}
+		}
+	}
 }
 
 func runC11(in sx.SX) (sx.SX, string) {
@@ -156,6 +198,20 @@ func runC11(in sx.SX) (sx.SX, string) {
 		peekBefore := sc.Peek()
 		plBefore, pcBefore := sc.PeekLine(), sc.PeekColumn()
 		switch sx.AsInt(oo[0]) {
+		case 5:
+			for n := int(sx.AsInt(oo[1])); n > 0; n-- {
+				ret = int64(sc.Read())
+				want := int64(-1)
+				if pos < len(runes) {
+					want = int64(runes[pos])
+				}
+				if ret != want && fail == "" {
+					fail = fmt.Sprintf("op %d: a Read returned %d, the cursor specification says %d", k, ret, want)
+				}
+				if pos <= len(runes) {
+					pos++
+				}
+			}
 		case 0:
 			ret = int64(sc.Read())
 			want := int64(-1)
